@@ -238,6 +238,16 @@ def p_C02(ctx):
     return ctx.finish("every building of the MC_C02 lattice (TLC-enumerated, exhaustive for the configured value sets) is replayed on the real library; every numeric field of EnergyPerformance is compared with Balance!Evaluate; non-trivial = lattice cases (all have at least two carriers)")
 
 
+def unbounded(ctx, inv):
+    """thorough tier: the per-step, division-free part is discharged by Apalache for all naturals"""
+    if ctx.quick:
+        return
+    r = vlib.run_apalache("Step", inv)
+    if not r["ok"]:
+        raise ToolError("Apalache did not confirm %s" % inv)
+    ctx.extra.setdefault("unbounded_obligations", []).append(r)
+
+
 def stride(it, k, off=0):
     for i, x in enumerate(it):
         if i % k == off:
@@ -254,6 +264,7 @@ TRUST = "harness writer / flattener (harness/src) and python driver trusted; the
 
 
 def p_C01(ctx):
+    unbounded(ctx, "Conservation")
     st = lattice(ctx)
     runs = [{"tag": "base"}]
     ctx.replay(with_runs(vlib.mc_cases(st), runs), "lattice", "Trace_C01")
@@ -302,6 +313,7 @@ def p_C04(ctx):
 
 
 def p_C12(ctx):
+    unbounded(ctx, "Priority")
     st = lattice(ctx)
     runs = [{"tag": "lm0", "lm": False}, {"tag": "lm1", "lm": True}]
     ctx.replay(with_runs(vlib.mc_cases(st), runs), "lattice", "Trace_C12")
@@ -328,6 +340,7 @@ def p_C13(ctx):
 
 
 def p_C14(ctx):
+    unbounded(ctx, "Monotone")
     st = ctx.mc("MC_C14", "MC_C14_quick.cfg" if ctx.quick else "MC_C14_thorough.cfg")
     def pairs(cs):
         for c in cs:
